@@ -37,7 +37,8 @@ class Cfg(object):
 
 SIMPLE_MIX = ["none", "none", "simple", "simple"]
 COMMON = dict(ext_ids=True, floats=True, value_tables=True, units=True, receivers=True, explicit_limits=True,
-              fd=True, max_len=64, multi_senders=True, global_value_tables=False)
+              fd=True, max_len=64, multi_senders=True, global_value_tables=False,
+              mux_value_tables=0.5, mux_declared_01=0.35, bare_signals=0.15)
 
 CONFIGS = [
     Cfg("dbc", "dbc", feats=dict(mux="mixed")),
@@ -80,10 +81,7 @@ def gen_case(rng, C, cfg, digits, nbuses=1, n_frames=None, comments=None):
     elif n_frames:
         ft["n_frames"] = n_frames
     db = matgen.gen_matrix(rng, C, **ft)
-    for fr in db.frames:
-        # degenerate: flagged as extended multiplexing but no room was left for any multiplexed signal
-        if fr.is_complex_multiplexed and not any(s.mux_val is not None for s in fr.signals):
-            fr.is_complex_multiplexed = False
+    normalise(db, ft)
     if not cfg.cluster:
         return {"": db}
     names = BUS_NAMES[:nbuses]
@@ -100,6 +98,140 @@ def gen_case(rng, C, cfg, digits, nbuses=1, n_frames=None, comments=None):
     for i, fr in enumerate(frames):
         buses[names[i % len(names)] if i < len(names) else rng.choice(names)].add_frame(fr)
     return buses
+
+
+# ------------------------------------------------------------------------------------------------------------------
+# conversion chains: a matrix produced by the READER of format A is a matrix too; it is handed to format B's writer
+CHAIN_SOURCES = ["dbc", "dbf", "sym", "kcd", "json-all", "xls-msbreverse", "arxml4", "arxml3"]
+
+
+def cfg_by_key(key):
+    return next(c for c in CONFIGS if c.key == key)
+
+
+def merged_feats(a, b):
+    """generator features inside the envelopes of both configurations"""
+    ft = dict(COMMON)
+    for c in (a, b):
+        for k, v in c.feats.items():
+            if k == "mux_choices":
+                ft[k] = v                                  # the only restriction in use: no extended multiplexing
+            elif k == "unit_max":
+                ft[k] = min(v, ft.get(k, v))
+            elif k == "static_in_mux":
+                ft[k] = ft.get(k, True) and v
+            elif isinstance(v, bool):
+                ft[k] = ft.get(k, False) or v
+            else:
+                ft.setdefault(k, v)
+    ft["mux"] = "mixed"
+    return ft
+
+
+def normalise(db, ft):
+    """degenerate shapes the generator can produce when a frame has no room left"""
+    for fr in db.frames:
+        lone = not any(s.mux_val is not None for s in fr.signals)
+        # flagged as extended multiplexing but no multiplexed signal
+        if fr.is_complex_multiplexed and lone:
+            fr.is_complex_multiplexed = False
+        # SYM describes a multiplexer only through its Mux= groups: a multiplexer without any group is a plain signal there
+        if ft.get("static_in_mux") is False and lone:
+            for s in fr.signals:
+                if s.is_multiplexer:
+                    s.multiplex = s.multiplex_setter(None)
+
+
+def gen_chain_source(rng, C, F, a, b, digits):
+    """generate inside both envelopes, take it through A (dump + loads); returns (matrix read by A, A's file) or (None, why)"""
+    ft = merged_feats(a, b)
+    ft["digits"] = digits
+    ft["n_frames"] = (1, 3)
+    db = matgen.gen_matrix(rng, C, **ft)
+    normalise(db, ft)
+    buf = io.BytesIO()
+    try:
+        if a.cluster:
+            F.dump({"Chain": db}, buf, a.fmt, **a.opts)
+        else:
+            F.dump(db, buf, a.fmt, **a.opts)
+        back = F.loads(buf.getvalue(), a.fmt, **a.opts)
+    except Exception as e:  # noqa  (A's own round trip is the subject of the ordinary stage)
+        return None, "source format raises %r" % e
+    m = back.get("Chain") if a.cluster else list(back.values())[0]
+    if m is None or not m.frames:
+        return None, "source format returned no frames"
+    return m, buf.getvalue()
+
+
+def inside_envelope(b, m):
+    """is the matrix the reader of A produced still inside B's envelope?  returns None or the reason it is not"""
+    ecus = {e.name for e in m.ecus}
+    names = set()
+    for fr in m.frames:
+        if fr.is_complex_multiplexed and b.feats.get("mux_choices") == SIMPLE_MIX:
+            return "extended multiplexing"
+        if not (1 <= int(fr.size) <= 8 or int(fr.size) in (12, 16, 20, 24, 32, 48, 64)):
+            return "frame length not a CAN / CAN FD length"      # the XLS reader recomputes lengths such as 42
+        nm = [s.name for s in fr.signals]
+        if len(nm) != len(set(nm)):
+            return "duplicate signal names in a frame"
+        for s in fr.signals:
+            if any(p >= 8 * int(fr.size) for p in sig_positions(s)):
+                return "signal outside its frame"
+            if b.feats.get("unique_signal_names"):
+                if s.name in names:
+                    return "signal names not unique"
+                names.add(s.name)
+            if b.feats.get("mux_intel_unsigned") and s.is_multiplexer and (not s.is_little_endian or s.is_signed or D(s.factor) != 1 or D(s.offset) != 0
+                                                                             or s.unit or s.receivers):
+                return "multiplexer not a plain Intel unsigned signal"
+            if b.feats.get("static_in_mux") is False and s.mux_val is None and not s.is_multiplexer and any(x.is_multiplexer for x in fr.signals):
+                return "static signal in a multiplexed frame"
+            if b.feats.get("static_in_mux") is False and s.is_multiplexer and not any(x.mux_val is not None for x in fr.signals):
+                return "multiplexer without multiplexed signal"
+            if "unit_max" in b.feats and s.unit is not None and len(s.unit) > b.feats["unit_max"]:
+                return "unit too long"
+            if any(r not in ecus for r in s.receivers):
+                return "receiver not a listed ecu"
+        if any(t not in ecus for t in fr.transmitters):
+            return "sender not a listed ecu"
+    if b.feats.get("unique_id_numbers"):
+        ids = [int(f.arbitration_id.id) for f in m.frames]
+        if len(ids) != len(set(ids)):
+            return "id numbers not unique"
+    return None
+
+
+def field_type_problems(m, which):
+    """fields whose documented type the matrix does not have.  which: 'layout' (C06) or 'value' (C07).
+    Returns list of (frame name, signal name or None, field, repr of the value)"""
+    out = []
+
+    def chk(ok, fr, sg, field, v):
+        if not ok:
+            out.append((fr.name, sg.name if sg is not None else None, field, "%r (%s)" % (v, type(v).__name__)))
+    for fr in m.frames:
+        if which == "layout":
+            chk(type(fr.arbitration_id.id) is int, fr, None, "arbitration_id.id", fr.arbitration_id.id)
+            chk(type(fr.arbitration_id.extended) is bool, fr, None, "arbitration_id.extended", fr.arbitration_id.extended)
+            chk(type(fr.size) is int, fr, None, "size", fr.size)
+        else:
+            chk(isinstance(fr.transmitters, list) and all(isinstance(t, str) for t in fr.transmitters), fr, None, "transmitters", fr.transmitters)
+        for s in fr.signals:
+            if which == "layout":
+                chk(type(s.is_little_endian) is bool, fr, s, "is_little_endian", s.is_little_endian)
+                chk(type(s.start_bit) is int, fr, s, "start_bit", s.start_bit)
+                chk(type(s.size) is int, fr, s, "size", s.size)
+            else:
+                chk(type(s.is_signed) is bool, fr, s, "is_signed", s.is_signed)
+                chk(type(s.is_float) is bool, fr, s, "is_float", s.is_float)
+                chk(isinstance(s.receivers, list) and all(isinstance(r, str) for r in s.receivers), fr, s, "receivers", s.receivers)
+                chk(s.mux_val is None or type(s.mux_val) is int, fr, s, "mux_val", s.mux_val)
+                chk(type(s.is_multiplexer) is bool, fr, s, "is_multiplexer", s.is_multiplexer)
+                chk(all(type(k) is int and isinstance(v, str) for k, v in s.values.items()), fr, s, "values", dict(s.values))
+                chk(isinstance(s.unit, str), fr, s, "unit", s.unit)
+    return out
 
 
 def write_read(F, cfg, buses):
@@ -555,6 +687,32 @@ def directed(C):
         fr.update_receiver()
         db.add_frame(fr)
     out.append(("same-signal-name-two-frames", ["dbc", "dbf", "sym", "kcd", "json", "xls"], db))
+
+    # 7. value tables on multiplexers whose range is 0..1 (one bit; wider with declared limits) and a wider one with its
+    #    natural range; a one-bit signal with nothing but a value table
+    db = base()
+    for k, (size, declared) in enumerate(((1, False), (4, True), (4, False))):
+        fr = C.Frame("Paged%d" % k, arbitration_id=C.ArbitrationId(0x400 + k, False), size=4)
+        fr.add_transmitter("EAlpha")
+        m = C.Signal("Page%d" % k, start_bit=0, size=size, is_little_endian=True, is_signed=False, multiplex="Multiplexor")
+        if declared:
+            m.min, m.max = 0, 1
+        m.add_values(0, "PageA")
+        m.add_values(1, "PageB")
+        fr.add_signal(m)
+        for v in (0, 1):
+            s = sig("P%d_Data%d" % (k, v), 8, 8, multiplex=v, unit="V")
+            s.add_receiver("EBeta")
+            s.add_values(3, "Three")
+            fr.add_signal(s)
+        flag = C.Signal("P%d_Flag" % k, start_bit=24, size=1, is_little_endian=True, is_signed=False)
+        flag.add_values(0, "No")
+        flag.add_values(1, "Yes")
+        fr.add_signal(flag)
+        fr.multiplex_signals()
+        fr.update_receiver()
+        db.add_frame(fr)
+    out.append(("multiplexer-value-table-range-0-1", ["dbc", "dbf", "kcd", "json", "xls", "arxml"], db))
 
     # 6. a sender that also receives one of the frame's signals
     db = base()
